@@ -124,6 +124,10 @@ pub struct Field {
     pub post: Post,
     /// spelled `#[darling(..)]` split: option texts are distributed over 1..2 attributes
     pub split_attrs: bool,
+    /// the field's Rust type is `Foreign<T>`, a type of the user's that has no `FromMeta` impl: legal
+    /// only with a converter of its own (`with`) and a default of its own (so that nothing asks the
+    /// type for a value-for-absent) - the documented trait requirements
+    pub foreign: bool,
 }
 
 #[derive(Clone, Debug)]
@@ -145,6 +149,9 @@ pub struct Variant {
     /// options on the only field of a newtype variant
     pub nt_with: With,
     pub nt_post: Post,
+    /// `default` on the only field of a newtype variant: the value the string form gives the variant
+    pub nt_default: Def,
+    pub nt_foreign: bool,
 }
 
 impl Variant {
@@ -157,12 +164,13 @@ impl Variant {
                 ty: t.clone(),
                 multiple: false,
                 rename: None,
-                default: Def::None,
+                default: self.nt_default,
                 skip: false,
                 flatten: false,
                 with: self.nt_with,
                 post: self.nt_post,
                 split_attrs: false,
+                foreign: self.nt_foreign,
             }),
             _ => None,
         }
@@ -266,6 +274,7 @@ impl Recv {
                 with: self.inner_with,
                 post: self.inner_post,
                 split_attrs: false,
+                foreign: false,
             }),
             _ => None,
         }
@@ -474,6 +483,7 @@ impl<'a> Gen<'a> {
                 with: With::None,
                 post: Post::None,
                 split_attrs: self.rng.chance(1, 4),
+                foreign: false,
             };
             f.ty = self.field_ty(depth, true);
             if opts {
@@ -518,6 +528,12 @@ impl<'a> Gen<'a> {
                         1 => f.post = Post::AndThen,
                         _ => {}
                     }
+                    // a type of the user's without a FromMeta impl: read by its own converter, absent it
+                    // takes its own default
+                    if f.with != With::None && f.post == Post::None && !f.multiple && matches!(f.default, Def::None | Def::Trait) && self.rng.coin() {
+                        f.default = Def::Trait;
+                        f.foreign = true;
+                    }
                 }
             }
             out.push(f);
@@ -536,6 +552,7 @@ impl<'a> Gen<'a> {
                 with: With::None,
                 post: Post::None,
                 split_attrs: false,
+                foreign: false,
             });
         }
         // explicit renames must not collide with each other
@@ -608,6 +625,7 @@ impl<'a> Gen<'a> {
                 with: With::None,
                 post,
                 split_attrs: false,
+                foreign: false,
             });
         }
         out
@@ -745,6 +763,8 @@ impl<'a> Gen<'a> {
                     body,
                     nt_with: With::None,
                     nt_post: Post::None,
+                    nt_default: Def::None,
+                    nt_foreign: false,
                 };
                 if opts {
                     if let VBody::Newtype(Ty::Sc(sc)) = &v.body {
@@ -758,6 +778,18 @@ impl<'a> Gen<'a> {
                                 0 => v.nt_post = Post::Map,
                                 1 => v.nt_post = Post::AndThen,
                                 _ => {}
+                            }
+                            // a default of its own: what the string form gives the variant
+                            if self.rng.chance(1, 5) {
+                                v.nt_default = Def::Trait;
+                            }
+                            // ... and with a converter of its own as well the type needs no FromMeta impl
+                            if v.nt_post == Post::None && self.rng.chance(1, 5) {
+                                v.nt_default = Def::Trait;
+                                if v.nt_with == With::None {
+                                    v.nt_with = if self.rng.coin() { With::Path } else { With::Closure };
+                                }
+                                v.nt_foreign = true;
                             }
                         }
                     }
@@ -1071,6 +1103,7 @@ impl<'a> Gen<'a> {
             with: With::None,
             post: Post::None,
             split_attrs: false,
+                foreign: false,
         });
         if self.rng.coin() {
             fs.push(Field {
@@ -1084,6 +1117,7 @@ impl<'a> Gen<'a> {
                 with: With::None,
                 post: Post::None,
                 split_attrs: false,
+                foreign: false,
             });
         }
         r.shape = Shape::Struct(fs);
@@ -1115,7 +1149,7 @@ impl<'a> Gen<'a> {
 
 /// The field container-level `map` / `and_then` act on: the first parsed, non-multiple i64 or String field.
 pub fn anchor_field(r: &Recv) -> Option<usize> {
-    r.fields().iter().position(|f| !f.multiple && !f.flatten && matches!(f.ty, Ty::Sc(Sc::I64) | Ty::Sc(Sc::Str)))
+    r.fields().iter().position(|f| !f.multiple && !f.flatten && !f.foreign && matches!(f.ty, Ty::Sc(Sc::I64) | Ty::Sc(Sc::Str)))
 }
 
 /// helper functions are not emitted generically: a generic receiver keeps only what needs none
